@@ -66,12 +66,14 @@ Narrow(A, r, res) ==
   \* ... and neither does a refusal: only a write or delete acknowledged as successful does (C10's wording)
   ELSE IF faulted /\ IsRead(r) /\ Explaining(A, r, res) # {} THEN A
   \* (a refused write may have been applied to one tier all the same: its outcome becomes admissible too)
-  ELSE IF faulted /\ res = <<"fail">> /\ Explaining(A, r, res) # {} THEN A \cup After1(A, r)
+  \* - also when the refusal has no explanation in A: a backend may answer ANY request with "not found",
+  \* "exists" or "not stored" (they are memcached statuses too); the client is told the truth, a refusal
+  ELSE IF faulted /\ res = <<"fail">> THEN A \cup After1(A, r)
   \* a touch / get-and-touch gives every admissible entry the new expiry and rules none of them out
   ELSE IF faulted /\ r.m \in {"touch", "gat"} /\ Explaining(A, r, res) # {} THEN After1(A, r)
   ELSE LET S == Explaining(A, r, res) IN IF S = {} THEN After1(A, r) ELSE After1(S, r)
 
-ReplyBad(A, r, res) == ~Uncertain(res) /\ ~MissOK(r, res) /\ Explaining(A, r, res) = {}
+ReplyBad(A, r, res) == ~Uncertain(res) /\ ~MissOK(r, res) /\ ~(faulted /\ res = <<"fail">>) /\ Explaining(A, r, res) = {}
 
 \* a multi-key get: the keys are looked up one after the other
 RECURSIVE MGetBad(_, _, _)
